@@ -47,6 +47,7 @@ type GSpec struct {
 	Rules      []*GRule // Rules[0] is @start
 	WithBounds bool     // parser type defines _onBounds
 	NilTwin    bool     // Go side: Node is an interface and some actions of non-empty productions return nil
+	Reinject   bool     // Go side: the action of a production `@error TOKEN` hands TOKEN back with recoverLookahead (no Lean model: oracle only)
 }
 
 func (s *GSpec) termText(t *GTerm) string {
@@ -175,6 +176,13 @@ func (s *GSpec) GoSource(pkg string) string {
 				// the action runs (and is logged) as usual but hands a nil interface value to its parent
 				fmt.Fprintf(&ms, "func (p *parserT) on_%s__s%d(%s) Node { p.mk(%d, []string{%s}); return nil }\n",
 					r.Name, len(seen)-1, strings.Join(params, ", "), ri+1, strings.Join(args, ", "))
+				continue
+			}
+			if s.Reinject && len(p.Terms) == 2 && p.Terms[0].Kind == KErr && p.Terms[1].Kind == KTok {
+				// documented use of recoverLookahead: the error production consumed a token that starts the next
+				// construct; its action hands the token back to the parser as the next lookahead
+				fmt.Fprintf(&ms, "func (p *parserT) on_%s__s%d(%s) Node { n := p.mk(%d, []string{%s}); p.recoverLookahead(%s, a1); return n }\n",
+					r.Name, len(seen)-1, strings.Join(params, ", "), ri+1, strings.Join(args, ", "), s.Tokens[p.Terms[1].Tok])
 				continue
 			}
 			fmt.Fprintf(&ms, "func (p *parserT) on_%s__s%d(%s) Node { return p.mk(%d, []string{%s}) }\n",
